@@ -282,8 +282,10 @@ def gen_sched(g):
     for d in dirs:
         if d != ROOT:
             tree[d + "/"] = ""
+    cfgpath = None
     if filecfg or rng.random() < 0.15:
-        tree[ROOT + "/" + rng.choice([".fortlsrc", ".fortls.json", ".fortls"])] = json.dumps(filecfg)
+        cfgpath = ROOT + "/" + rng.choice([".fortlsrc", ".fortls.json", ".fortls"])
+        tree[cfgpath] = json.dumps(filecfg)
     argv = ["--disable_autoupdate", "--nthreads", str(rng.randint(1, 8))] + argv
     faults = []
     faulty = rng.random() < 0.15
@@ -297,7 +299,9 @@ def gen_sched(g):
     return {"argv": argv, "tree": tree, "ops": ops, "faults": faults, "oracles": ["c18"],
             "c18": cfg, "order": rng.choice([None, "rev", rng.randint(0, 9999)]),
             "pool": {"assign": [rng.randrange(8) for _ in range(rng.randint(1, 5))]},
-            "faulty": faulty}
+            "faulty": faulty,
+            # the reference model is computed from cfg: what carries cfg to the server is not shrunk
+            "shrink_keep": {"argv": True, "tree": [cfgpath] if cfgpath else []}}
 
 
 def nontrivial(o):
